@@ -4,7 +4,7 @@
    in-Coq correspondence (C02/Corr.v, harness/c02.py) on every run.
    Carrier: R.  Arrays are flat lists; [tw_ok n w] says the weighting is a positive constant
    or an array of n positive entries; [tw_vec n w] is its weight vector. *)
-From Coq Require Import Reals List Bool Permutation.
+From Coq Require Import QArith Qreals Reals List Bool Permutation.
 From Verif Require Import Base.Num Base.Vec Base.VecR C02.Model C02.Proofs.
 From Verif Require Import C02.GenSyntax C02.GenSem Gen.Weighting C02.GenTie C02.Transfer.
 Import ListNotations.
